@@ -195,6 +195,25 @@ def make_tasks(W, quick, rng):
                                "if (%s is bool) { write('T'); } bool b = %s is bool; sleep(b is int); sleep((not b) is int); sleep(-%s); sleep((not (%s is bool)) is int); }\n" % ((L,) * 8),
                           vsrc="empty @is_you(int x, int y) { write(y is byte); sleep((y is byte) is int); sleep((y is bool) is int); sleep(x / ((y is byte) + 1)); "
                                "if (y is bool) { write('T'); } bool b = y is bool; sleep(b is int); sleep((not b) is int); sleep(-y); sleep((not (y is bool)) is int); }\n"))
+    # speculation with a constant operand: b is always evaluated (its effects stay), the value is a's or b's
+    SPRE = 'int g = 0;\nint ord(int a) { g += 1; return a + g; }\nbool flip(int a) { g += 10; return a > 0; }\n'
+    for c in [0, 1, 2, 5, -1, 7]:
+        L = lit(c, W)
+        tasks.append(dict(name='twin/spec-const-left/%d/w%d' % (c, W), W=W, bind={'y': c & ((1 << (8 * W)) - 1)},
+                          csrc=SPRE + 'empty @is_you(int x) { sleep(%s ?? ord(x)); sleep(g); sleep(ord(x) ?? %s); sleep(g); }\n' % (L, L),
+                          vsrc=SPRE + 'empty @is_you(int x, int y) { sleep(y ?? ord(x)); sleep(g); sleep(ord(x) ?? y); sleep(g); }\n'))
+        tasks.append(dict(name='twin/spec-const-global/%d/w%d' % (c, W), W=W, bind={'y': c & ((1 << (8 * W)) - 1)},
+                          csrc=SPRE + 'const int K = %s;\nempty @is_you(int x) { sleep(K ?? ord(x)); sleep(g); sleep((K + 1) ?? ord(x)); sleep(g); }\n' % L,
+                          vsrc=SPRE + 'empty @is_you(int x, int y) { sleep(y ?? ord(x)); sleep(g); sleep((y + 1) ?? ord(x)); sleep(g); }\n'))
+    for a in ('true', 'false'):
+        tasks.append(dict(name='twin/spec-bool/%s/w%d' % (a, W), W=W, bind={'y': int(a == 'true')},
+                          csrc=SPRE + 'empty @is_you(int x) { bool b = %s ?? flip(x); sleep(b is int); sleep(g); bool c = flip(x) ?? %s; sleep(c is int); sleep(g); }\n' % (a, a),
+                          vsrc=SPRE + 'empty @is_you(int x, int y) { bool t = y is bool; bool b = t ?? flip(x); sleep(b is int); sleep(g); bool c = flip(x) ?? t; sleep(c is int); sleep(g); }\n'))
+    # logical operators with a constant operand keep the other operand's effects and faults
+    for op, a in itertools.product(('and', 'or'), ('true', 'false')):
+        tasks.append(dict(name='twin/logic-effects/%s/%s/w%d' % (op, a, W), W=W, bind={'y': int(a == 'true')},
+                          csrc=SPRE + 'empty @is_you(int x) { sleep((flip(x) %s %s) is int); sleep(g); sleep((%s %s flip(x)) is int); sleep(g); sleep(((10 / x == 1) %s %s) is int); }\n' % (op, a, a, op, op, a),
+                          vsrc=SPRE + 'empty @is_you(int x, int y) { bool t = y is bool; sleep((flip(x) %s t) is int); sleep(g); sleep((t %s flip(x)) is int); sleep(g); sleep(((10 / x == 1) %s t) is int); }\n' % (op, op, op)))
     # boolean constants
     for op in ('and', 'or', '==', '!='):
         for a in ('true', 'false'):
